@@ -713,6 +713,15 @@ func (g *Gen) Value(t *Ty, env Env, depth int) *Val {
 		if depth > 3 && n > 1 {
 			n = 1
 		}
+		if t.Max == nil && depth <= 2 && g.p(0.04) {
+			// a long list (samples, log lines): an implementation may treat lists beyond some block size
+			// differently; items are still numbered from the start of the list
+			switch t.Item.T {
+			case "int", "float", "str", "bool", "enumInt", "enumStr", "list", "obj":
+				n = 60 + g.R.Intn(140)
+				g.count("list:long")
+			}
+		}
 		l := &Val{Kind: "l"}
 		for i := 0; i < n; i++ {
 			l.L = append(l.L, g.Value(t.Item, env, depth+1))
